@@ -1632,3 +1632,170 @@ func c07WrapFile(rc *RuleCtx) {
 		}
 	}
 }
+
+func init() {
+	register(&Rule{ID: "C05.overwrite", Floor: 1, Also: []string{"C01", "C04"},
+		Text: "MemFS.Rename inserts the moved node under the destination name only on paths that established what was there: nothing (the destination walk said 'no such file', or the node found is nil), a regular file that is released on that path, or a symbolic link (nothing to release) - for every kind of source node. An existing directory, or a file that is not released, is never silently replaced",
+		Run:  c05Overwrite})
+}
+
+func c05Overwrite(rc *RuleCtx) {
+	f := rc.C.method("memfs", "MemFS", "Rename")
+	if f == nil {
+		rc.anchor("memfs.(*MemFS).Rename")
+		return
+	}
+	// the destination walk: the second searchNode call; its child (#1) and status (#3) results
+	var walks []*ssa.Call
+	eachCall(f, func(ci ssa.CallInstruction) {
+		if c, ok := ci.(*ssa.Call); ok {
+			if fn := calleeFunc(c); fn != nil && fn.Name() == "searchNode" {
+				walks = append(walks, c)
+			}
+		}
+	})
+	if len(walks) < 2 {
+		rc.anchor("the two walks of memfs.(*MemFS).Rename")
+		return
+	}
+	sort.Slice(walks, func(i, j int) bool { return walks[i].Pos() < walks[j].Pos() })
+	w := walks[1]
+	var nChild, nErr *ssa.Extract
+	for _, u := range referrersOf(w) {
+		if e, ok := u.(*ssa.Extract); ok {
+			switch e.Index {
+			case 1:
+				nChild = e
+			case 3:
+				nErr = e
+			}
+		}
+	}
+	var ins ssa.CallInstruction
+	eachCall(f, func(ci ssa.CallInstruction) {
+		if fn := calleeFunc(ci); fn != nil && fn.Name() == "addChild" {
+			ins = ci
+		}
+	})
+	cons := funcName(f) + " destination established before the insert"
+	if ins == nil || nChild == nil {
+		rc.anchor("addChild call / destination child of memfs.(*MemFS).Rename")
+		return
+	}
+	isNChild := func(v ssa.Value) bool { return strip(resolve1(v)) == ssa.Value(nChild) || stripIface(v) == ssa.Value(nChild) }
+	// blocks that release the destination: a delete() call on a value asserted from nChild
+	releases := func(ta *ssa.TypeAssert) bool {
+		rel := false
+		eachCall(f, func(ci ssa.CallInstruction) {
+			if fn := calleeFunc(ci); fn != nil && fn.Name() == "delete" {
+				if r := callRecv(ci); r != nil {
+					if e, ok := strip(r).(*ssa.Extract); ok && e.Tuple == ssa.Value(ta) {
+						rel = true
+					}
+					if strip(r) == ssa.Value(ta) {
+						rel = true
+					}
+				}
+			}
+		})
+		return rel
+	}
+	paths, complete := pathsTo(f, ins, 6000)
+	if !complete {
+		rc.bad(cons, ins.Pos(), "too many paths to the insert to decide")
+		return
+	}
+	// the source node: child result of the first walk; the implementations of its interface type in the package
+	var oChild *ssa.Extract
+	for _, u := range referrersOf(walks[0]) {
+		if e, ok := u.(*ssa.Extract); ok && e.Index == 1 {
+			oChild = e
+		}
+	}
+	impls := map[string]bool{}
+	if oChild != nil {
+		if it, ok := oChild.Type().Underlying().(*types.Interface); ok {
+			sc := f.Pkg.Pkg.Scope()
+			for _, nm := range sc.Names() {
+				if tn, ok := sc.Lookup(nm).(*types.TypeName); ok {
+					if _, isI := tn.Type().Underlying().(*types.Interface); !isI && types.Implements(types.NewPointer(tn.Type()), it) {
+						impls[nm] = true
+					}
+				}
+			}
+		}
+	}
+	badPath := ""
+	np := 0
+	for _, p := range paths {
+		if !feasiblePath(p) {
+			continue
+		}
+		// a path on which the source node is none of the node types does not exist (the walk said 'found')
+		failed := map[string]bool{}
+		for _, fa := range p {
+			c, truth := normCond(fa.Cond, fa.Truth)
+			if x, isE := c.(*ssa.Extract); isE && !truth && x.Index == 1 {
+				if ta, isTA := x.Tuple.(*ssa.TypeAssert); isTA && oChild != nil && (strip(resolve1(ta.X)) == ssa.Value(oChild) || stripIface(ta.X) == ssa.Value(oChild)) {
+					if nt := namedOf(ta.AssertedType); nt != nil {
+						failed[nt.Obj().Name()] = true
+					}
+				}
+			}
+		}
+		if len(impls) > 0 && len(failed) >= len(impls) {
+			continue
+		}
+		np++
+		ok := false
+		for _, fa := range p {
+			c, truth := normCond(fa.Cond, fa.Truth)
+			switch x := c.(type) {
+			case *ssa.BinOp:
+				if (x.Op == token.EQL) == truth && (x.Op == token.EQL || x.Op == token.NEQ) {
+					if (isNChild(x.X) && isNilConst(x.Y)) || (isNChild(x.Y) && isNilConst(x.X)) {
+						ok = true // nChild == nil
+					}
+				}
+			case *ssa.Call:
+				if fn := calleeFunc(x); fn != nil && fn.Name() == "isNotExist" && truth && nErr != nil {
+					for _, a := range callArgs(x) {
+						if strip(resolve1(a)) == ssa.Value(nErr) {
+							ok = true // the destination walk found nothing
+						}
+					}
+				}
+			case *ssa.Extract:
+				if ta, isTA := x.Tuple.(*ssa.TypeAssert); isTA && x.Index == 1 && truth && isNChild(ta.X) {
+					if nt := namedOf(ta.AssertedType); nt != nil {
+						switch nt.Obj().Name() {
+						case "symlinkNode":
+							ok = true
+						case "fileNode":
+							if releases(ta) {
+								ok = true
+							}
+						}
+					}
+				}
+			}
+		}
+		if !ok {
+			var ds []string
+			for _, fa := range p {
+				if fa.Cond != nil && fa.Cond.Pos().IsValid() {
+					ds = append(ds, fmt.Sprintf("%s=%v", shortPos(rc.C.pos(fa.Cond.Pos())), fa.Truth))
+				}
+			}
+			if len(ds) > 8 {
+				ds = ds[len(ds)-8:]
+			}
+			badPath = strings.Join(ds, " ")
+		}
+	}
+	if badPath != "" {
+		rc.bad(cons, ins.Pos(), "a path reaches the insert without having established that the destination is free, a released file or a symbolic link (branches: "+badPath+"): whatever was under the destination name - a non-empty directory, a file with other hard links - is replaced without being released")
+	} else {
+		rc.good(cons, ins.Pos(), fmt.Sprintf("%d paths to the insert: destination free, released or a symbolic link on each", np))
+	}
+}
